@@ -361,6 +361,17 @@ class Program:
                 return {"True": True, "False": False, "None": None}[node.id]
             raise CannotFold(f"name not foldable: {node.id} in {mod.name}")
         if isinstance(node, ast.Attribute):
+            # NamedTuple._fields of a class of the program
+            if node.attr == "_fields" and not (env and isinstance(node.value, ast.Name) and node.value.id in env):
+                cls_ = None
+                if isinstance(node.value, ast.Name) and node.value.id in mod.classes:
+                    cls_ = mod.classes[node.value.id]
+                elif isinstance(node.value, ast.Attribute) and isinstance(node.value.value, ast.Name) and not (env and node.value.value.id in env):
+                    imp_ = mod.imports.get(node.value.value.id)
+                    if imp_ and imp_[0] == "mod" and imp_[1] in self.modules and node.value.attr in self.modules[imp_[1]].classes:
+                        cls_ = self.modules[imp_[1]].classes[node.value.attr]
+                if cls_ is not None and cls_.is_namedtuple:
+                    return tuple(cls_.fields)
             # module.CONST
             if isinstance(node.value, ast.Name) and not (env and node.value.id in env):
                 imp = mod.imports.get(node.value.id)
@@ -496,6 +507,14 @@ class Program:
                         env2["__stubs__"] = env["__stubs__"]
                     self._propagate(mod, body[:-1], env2, fn.id)
                     return self.fold(mod, body[-1].value, env2)
+                if env is not None and env.get("__calls__") and len(node.args) <= len(h.params):
+                    # evaluation mode: a sibling function (generator or with early returns) is evaluated as a whole
+                    env3: T.Dict[str, T.Any] = dict(zip(h.params, [f(a) for a in node.args]))
+                    for k_ in ("__stubs__", "__strict__", "__calls__"):
+                        if k_ in env:
+                            env3[k_] = env[k_]
+                    ret_, ys_ = self.run_body(h, env3)
+                    return ys_ if _is_generator(h.node) else ret_
             raise CannotFold(f"call not foldable: {unparse(node)}")
         if isinstance(node, ast.DictComp) and len(node.generators) == 1:
             gen = node.generators[0]
@@ -620,6 +639,20 @@ class Program:
                     if env.get("__strict__"):
                         raise EvalError(f"`{unparse(st)[:60]}` raises {type(ex_).__name__}")
                     raise CannotFold(f"helper not foldable: {who} (`{unparse(st)[:40]}` fails)")
+            elif isinstance(st, ast.Expr) and isinstance(st.value, ast.Call) and isinstance(st.value.func, ast.Attribute) and st.value.func.attr == "sort" \
+                    and isinstance(st.value.func.value, ast.Name) and isinstance(env.get(st.value.func.value.id), list) and not st.value.args:
+                kws_: T.Dict[str, T.Any] = {}
+                for k_ in st.value.keywords:
+                    if k_.arg == "key" and isinstance(k_.value, ast.Name) and k_.value.id in ("len", "str", "int", "repr"):
+                        kws_["key"] = {"len": len, "str": str, "int": int, "repr": repr}[k_.value.id]
+                    elif k_.arg in ("key", "reverse"):
+                        kws_[k_.arg] = self.fold(mod, k_.value, env)
+                    else:
+                        raise CannotFold(f"helper not foldable: {who} (sort keyword)")
+                try:
+                    env[st.value.func.value.id].sort(**kws_)
+                except TypeError:
+                    raise CannotFold(f"helper not foldable: {who} (sort)")
             elif isinstance(st, ast.For) and not st.orelse:
                 it = self.fold(mod, st.iter, env)
                 if isinstance(it, dict):
@@ -634,7 +667,11 @@ class Program:
                         continue
             elif isinstance(st, ast.If):
                 self._propagate(mod, st.body if self.fold(mod, st.test, env) else st.orelse, env, who, depth + 1)
-            elif isinstance(st, (ast.Pass, ast.Assert)):
+            elif isinstance(st, ast.Assert):
+                if env.get("__strict__") and not self.fold(mod, st.test, env):
+                    raise EvalError(f"`assert {unparse(st.test)[:50]}` fails")
+                continue
+            elif isinstance(st, ast.Pass):
                 continue
             elif isinstance(st, ast.Expr) and isinstance(st.value, ast.Call) and unparse(st.value.func).startswith(("logger.", "logging.")):
                 continue          # logging has no effect on the values
@@ -660,6 +697,8 @@ class Program:
                     raise CannotFold(f"loop bound exceeded: {who}")
             elif isinstance(st, ast.Return) and "__return__" in env:
                 raise _FuncReturn(self.fold(mod, st.value, env) if st.value is not None else None)
+            elif isinstance(st, ast.Expr) and isinstance(st.value, ast.Call) and env.get("__strict__") is not None:
+                self.fold(mod, st.value, env)          # evaluation mode: a call for its effect on the abstract values (stubbed or foldable)
             elif isinstance(st, ast.Raise) and env.get("__strict__"):
                 exc_ = st.exc.func if isinstance(st.exc, ast.Call) else st.exc
                 err_ = EvalError(f"raises {unparse(exc_) if exc_ is not None else 'the active exception'}")
